@@ -331,12 +331,13 @@ def unit_roundtrip(ctx):
 
 # (shape, nvdim, also with extend_scalar=True)
 CHUNK_SHAPES = [((99999, 1, 1), 1, False), ((100000, 1, 1), 1, False), ((100001, 1, 1), 1, False), ((66667, 1, 1), 3, False),
-                ((33333, 1, 1), 3, False), ((3, 1, 33334), 1, True), ((50, 40, 50), 1, True), ((50, 40, 50), 2, False),
+                ((33333, 1, 1), 3, False), ((3, 1, 33334), 1, True), ((50, 30, 20), 4, False),  # 4 components: 120000 values, 3 x cells = 90000
+                ((50, 40, 50), 1, True), ((50, 40, 50), 2, False), ((20, 30, 34), 5, False),
                 ((41, 61, 40), 1, False), ((1, 1, 200001), 1, False), ((33334, 1, 1), 1, True)]
 
 
 def unit_chunks(ctx):
-    shape, nv, wext = ctx.choose("shape", CHUNK_SHAPES if ctx.tier != "quick" else CHUNK_SHAPES[:7])
+    shape, nv, wext = ctx.choose("shape", CHUNK_SHAPES if ctx.tier != "quick" else CHUNK_SHAPES[:8])
     rep = ctx.choose("representation", ["bin8", "bin4", "txt"])
     ext = ctx.choose("extend_scalar", [False, True] if wext else [False])
     p2 = tuple(2.5e-9 * k for k in shape)
